@@ -35,11 +35,22 @@ class _WFile:
         self.fid = _WFile._next[0]
         self._closed = False
 
+    _tick = staticmethod(lambda: None)
+    _intr = None
+
     def write(self, b):
+        it = _WFile._intr
+        if it is not None and it.k is not None and not it.fired and len(self._log) == it.k and it.tear:
+            it.fired = True      # part of this write makes it, then the interrupt arrives
+            self._log.append(("write", self._rel, bytes(b[:it.tear]), self.fid))
+            self._f.write(b[:it.tear])
+            raise KeyboardInterrupt()
+        _WFile._tick()
         self._log.append(("write", self._rel, bytes(b), self.fid))
         return self._f.write(b)
 
     def flush(self):
+        _WFile._tick()
         self._log.append(("flush", self._rel, self.fid))
         return self._f.flush()
 
@@ -69,10 +80,28 @@ class _WFile:
         return getattr(self._f, n)
 
 
-def record(ctx, tree, op, now):
+class _Interrupt:
+    """interrupt_at = (k, tear): the command is interrupted from inside, the way Ctrl-C does it - KeyboardInterrupt is raised
+    when it is about to perform its (k+1)-th logged operation (tear: after that many bytes of that write) and the
+    interpreter unwinds normally: finally blocks, context managers and buffered files do what they do"""
+
+    def __init__(self, at):
+        self.k, self.tear = (at if at is not None else (None, None))
+        self.fired = False
+
+
+def record(ctx, tree, op, now, interrupt_at=None):
     root = ctx.root
     sub.materialise(root, tree)
     log = []
+    intr = _Interrupt(interrupt_at)
+
+    def tick():
+        if intr.k is not None and not intr.fired and len(log) == intr.k:
+            intr.fired = True
+            raise KeyboardInterrupt()
+    _WFile._tick = staticmethod(tick)
+    _WFile._intr = intr
     ropen, rmkdir, rreplace, rrename, rremove, runlink = builtins.open, os.mkdir, os.replace, os.rename, os.remove, os.unlink
     import shutil
     fast = getattr(shutil, "_USE_CP_SENDFILE", None)   # file copies go through read / write (and so through the log)
@@ -82,6 +111,8 @@ def record(ctx, tree, op, now):
         return p[len(root) + 1:] if p.startswith(root + "/") else None
 
     def lopen(path, mode="r", *a, **k):
+        if isinstance(path, (str, bytes, os.PathLike)) and rel(path) is not None and any(c in mode for c in "wax+"):
+            tick()
         try:
             f = ropen(path, mode, *a, **k)
         except OSError:
@@ -97,18 +128,24 @@ def record(ctx, tree, op, now):
         return f
 
     def lmkdir(p, *a, **k):
+        if rel(p) is not None:
+            tick()
         res = rmkdir(p, *a, **k)
         if rel(p) is not None:
             log.append(("mkdir", rel(p)))
         return res
 
     def lreplace(a, b, *x, **k):
+        if rel(a) is not None or rel(b) is not None:
+            tick()
         res = rreplace(a, b, *x, **k)
         if rel(a) is not None or rel(b) is not None:
             log.append(("replace", rel(a), rel(b)))
         return res
 
     def lrename(a, b, *x, **k):
+        if rel(a) is not None or rel(b) is not None:
+            tick()
         try:
             res = rrename(a, b, *x, **k)
         except OSError:
@@ -119,6 +156,8 @@ def record(ctx, tree, op, now):
         return res
 
     def lremove(p, *a, **k):
+        if rel(p) is not None:
+            tick()
         res = rremove(p, *a, **k)
         if rel(p) is not None:
             log.append(("remove", rel(p)))
@@ -127,6 +166,8 @@ def record(ctx, tree, op, now):
     name, args = ops.to_args(op)
     args = ops.expand_args(args, root)
     def lunlink(p, *a, **k):
+        if rel(p) is not None:
+            tick()
         res = runlink(p, *a, **k)
         if rel(p) is not None:
             log.append(("remove", rel(p)))
@@ -143,7 +184,13 @@ def record(ctx, tree, op, now):
         builtins.open, os.mkdir, os.replace, os.rename, os.remove, os.unlink = ropen, rmkdir, rreplace, rrename, rremove, runlink
         if fast is not None:
             shutil._USE_CP_SENDFILE = fast
+    _WFile._tick = staticmethod(lambda: None)
+    _WFile._intr = None
     final = sub.readback(root)
+    if interrupt_at is not None:
+        import gc
+        gc.collect()             # (files the unwinding left open are closed - and flushed - like at interpreter exit)
+        return res, log, sub.readback(root)
     # cross-check: every write-type audit event has its logged twin (same kind, same path, same order per kind)
     aud = []
     failed_renames = [o for o in log if o[0] == "rename-failed"]
